@@ -835,6 +835,10 @@ def make_cold_request(w, op, extra_nodes=()):
         need.add(0)  # the built-in systems hand out units of the default registry
     if op.get("form") == "quantity_default":
         need.add(0)  # the defining quantity lives in the default registry, whose contents a run may have extended
+    if getattr(w, "default_touched", False):
+        # the built-in unit systems resolve their base units against the default registry: once a run has
+        # (legitimately) added to it, every in_base / define_unit anywhere depends on its contents
+        need.add(0)
     for key in ("name", "sys"):
         d = usys_def(w, op[key]) if isinstance(op.get(key), str) else None
         if d is not None and op["k"] != "mkusys":
